@@ -511,7 +511,195 @@ def extract(repo, work):
                 notes.append("isWhite: body is not a single return of a condition")
         else:
             progs[nm] = tr.seq(tr.block(body))
+    try:
+        progs.update(writer_facts(docs, notes))
+        progs["_inventory"] = [list(x) for x in members(docs)[1]]
+    except Exception as ex:
+        notes.append("Writer fact extraction failed: %r" % (ex,))
     return progs, notes
+
+
+# ------------------------------------------------------------------ Writer members, Node accessors
+WRITER = ["spaces", "writeHeader", "writeFooter", "openNode", "writeProperty", "closeNode"]
+THIS_XML = ("mem", "xml", "this")
+THIS_STATE = ("mem", "state", "this")
+
+
+def assert_of(e):
+    """('cond', c, 0, __assert_fail(...)) -> assertion kind"""
+    if not (isinstance(e, tuple) and e[0] == "cond" and isinstance(e[3], tuple) and e[3][:2] == ("call", "__assert_fail")):
+        return None
+    c = e[1]
+    if c == THIS_XML:
+        return "AXml"
+    if c == ("un", "!", "pre", ("mcall", "empty", THIS_STATE)):
+        return "ANonEmpty"
+    if c == ("ref", "s", "VarDecl"):
+        return "ATopPtr"
+    if c == ("un", "!", "pre", ("mem", "hasContent", ("ref", "s", "VarDecl"))):
+        return "ANoContent"
+    return "AUnk"
+
+
+def printf_of(e, notes, fn):
+    if not (isinstance(e, tuple) and e[:3] == ("call", "fprintf", THIS_XML) and len(e) >= 4 and e[3][0] == "str"):
+        return None
+    args = []
+    for a in e[4:]:
+        if a[0] == "mcall" and a[1] == "c_str" and len(a) == 3 and a[2][0] == "ref" and a[2][2] == "ParmVarDecl":
+            args.append("GParam %s" % q(a[2][1]))
+        elif a == ("mcall", "c_str", ("mem", "type", ("ref", "s", "VarDecl"))):
+            args.append("GTopType")
+        else:
+            notes.append("%s: unrecognised fprintf argument %r" % (fn, a))
+            args.append("GUnk")
+    return "WPrintf %s [%s]" % (nlist(e[3][1].encode("latin-1")), "; ".join(args))
+
+
+def wstmt(s, notes, fn):
+    if isinstance(s, tuple) and s and s[0] == "expr":
+        e = s[1]
+        a = assert_of(e)
+        if a:
+            return "WAssert %s" % a
+        pf = printf_of(e, notes, fn)
+        if pf:
+            return pf
+        if e == ("mcall", "spaces", "this"):
+            return "WSpaces"
+        if e == ("ref", "s", "VarDecl"):
+            return "WNop"
+    if isinstance(s, tuple) and s and s[0] == "decl" and s[1] == "s" and s[3] == ("mcall", "top", THIS_STATE):
+        return "WTop"
+    if isinstance(s, tuple) and s and s[0] == "if" and s[1] == ("mem", "hasContent", ("ref", "s", "VarDecl")) and s[3] is not None:
+        return "WIfHasContent (%s) (%s)" % (wstmt(sxast_single(s[2]), notes, fn), wstmt(sxast_single(s[3]), notes, fn))
+    if isinstance(s, tuple) and s and s[0] == "for" and s[1] == ("decl", "i", "size_t", ("int", "0")) \
+            and s[2] == ("bin", "<", ("ref", "i", "VarDecl"), ("mcall", "size", THIS_STATE)) \
+            and s[3] in (("un", "++", "post", ("ref", "i", "VarDecl")), ("un", "++", "pre", ("ref", "i", "VarDecl"))):
+        return "WRepeatDepth (%s)" % wstmt(sxast_single(s[4]), notes, fn)
+    notes.append("%s: unrecognised statement %r" % (fn, s if len(repr(s)) < 240 else repr(s)[:240]))
+    return "WUnkS %s" % q(str(s[0]) if isinstance(s, tuple) and s else "?")
+
+
+def writer_prog(body, notes, fn):
+    if not body or body[0] != "block":
+        return ['WUnkS "nobody"']
+    b, out, i = list(body[1]), [], 0
+    while i < len(b):
+        s = b[i]
+        # State *s = new State; s->type = X; state.push(s);
+        if i + 2 < len(b) and s == ("decl", "s", "rkcommon::xml::Writer::State *", ("?", "CXXNewExpr")) \
+                and b[i + 1][0] == "expr" and b[i + 1][1][:3] == ("op", "operator=", ("mem", "type", ("ref", "s", "VarDecl"))) \
+                and b[i + 1][1][3][0] == "ref" and b[i + 1][1][3][2] == "ParmVarDecl" \
+                and b[i + 2] == ("expr", ("mcall", "push", THIS_STATE, ("ref", "s", "VarDecl"))):
+            out.append("WPushNew %s" % q(b[i + 1][1][3][1]))
+            i += 3
+            continue
+        # delete s; state.pop();
+        if i + 1 < len(b) and s == ("expr", ("?", "CXXDeleteExpr")) and b[i + 1] == ("expr", ("mcall", "pop", THIS_STATE)):
+            out.append("WPop")
+            i += 2
+            continue
+        out.append(wstmt(s, notes, fn))
+        i += 1
+    return out
+
+
+NODEFN = {
+    "hasProp": ("[('ret', ('op', 'operator!=', ('mcall', 'find', ('mem', 'properties', 'this'), ('ref', 'propName', 'ParmVarDecl')), "
+                "('mcall', 'end', ('mem', 'properties', 'this'))))]", "NHasFind"),
+    "getProp2": ("[('decl', 'it', 'IT', ('construct', 'IT', ('mcall', 'find', ('mem', 'properties', 'this'), ('ref', 'propName', 'ParmVarDecl')))), "
+                 "('ret', ('construct', 'std::string', ('cond', ('op', 'operator!=', ('ref', 'it', 'VarDecl'), ('mcall', 'end', ('mem', 'properties', 'this'))), "
+                 "('mem', 'second', ('op', 'operator->', ('ref', 'it', 'VarDecl'))), ('ref', 'fallbackValue', 'ParmVarDecl'))))]", "NGetFindOrFallback"),
+    "getProp1": ("[('ret', ('construct', 'std::string', ('mcall', 'getProp', 'this', ('ref', 'propName', 'ParmVarDecl'), ('construct', 'std::string'))))]",
+                 "NGetViaFallbackEmpty"),
+}
+
+
+def members(docs):
+    """all function-like declarations of namespace rkcommon::xml with a body, keyed by a qualified label; plus the
+    inventory of every declaration (label -> has_body)"""
+    bodies, inventory = {}, []
+
+    def label(n, path):
+        k, nm = n.get("kind"), n.get("name")
+        ty = n.get("type", {}).get("qualType", "")
+        return "%s%s %s" % (path, nm, ty)
+
+    def walk(n, path):
+        k = n.get("kind")
+        if k in ("NamespaceDecl", "CXXRecordDecl"):
+            sub = path if k == "NamespaceDecl" else path + str(n.get("name")) + "::"
+            if k == "CXXRecordDecl" and not n.get("completeDefinition"):
+                return
+            for c in inner(n):
+                walk(c, sub)
+        elif k in ("CXXMethodDecl", "CXXConstructorDecl", "CXXDestructorDecl", "FunctionDecl", "FieldDecl", "VarDecl"):
+            if n.get("isImplicit"):
+                return
+            has = any(c.get("kind") == "CompoundStmt" for c in inner(n))
+            if k == "CXXMethodDecl" or k == "CXXConstructorDecl" or k == "CXXDestructorDecl":
+                # out-of-line definitions appear at namespace level: qualify them by their parent record
+                pass
+            inventory.append((k, label(n, path), has))
+            if has:
+                bodies.setdefault(label(n, path), n)
+    for d in docs:
+        walk(d, "")
+    return bodies, inventory
+
+
+def writer_facts(docs, notes):
+    out = {}
+    fns = {}
+    hc_init = None
+
+    def walk(n, inrec):
+        k = n.get("kind")
+        if k == "NamespaceDecl":
+            for c in inner(n):
+                walk(c, None)
+        elif k == "CXXRecordDecl" and n.get("completeDefinition"):
+            for c in inner(n):
+                walk(c, n.get("name"))
+        elif k == "FieldDecl" and n.get("name") == "hasContent" and inrec == "State":
+            nonlocal hc_init
+            ini = [x for x in inner(n) if x.get("kind") == "CXXBoolLiteralExpr" or x.get("kind") == "InitListExpr" or x.get("kind") == "ImplicitCastExpr"]
+            txt = json.dumps(ini)
+            hc_init = ('"value": false' in txt) and ('"value": true' not in txt)
+        elif k in ("CXXMethodDecl", "CXXConstructorDecl") and any(c.get("kind") == "CompoundStmt" for c in inner(n)) and not n.get("isImplicit"):
+            nparams = len([c for c in inner(n) if c.get("kind") == "ParmVarDecl"])
+            key = n.get("name")
+            if key == "getProp":
+                key = "getProp%d" % nparams
+            fns.setdefault(key, []).append(n)
+    for d in docs:
+        walk(d, None)
+    for w in WRITER:
+        cands = fns.get(w, [])
+        if len(cands) != 1:
+            notes.append("Writer::%s: %d definitions" % (w, len(cands)))
+            out["w_" + w] = ['WUnkS "missing"']
+        else:
+            out["w_" + w] = writer_prog(sxast.body_of(cands[0]), notes, "Writer::" + w)
+    for key, (expected, fact) in NODEFN.items():
+        cands = fns.get(key, [])
+        got = None
+        if len(cands) == 1:
+            import re as _re
+            got = _re.sub(r"'(const )?std::map<[^']*const_iterator'", "'IT'", repr(sxast.body_of(cands[0])[1]))
+        out["n_" + key] = fact if got == expected else "NUnkN"
+        if got != expected:
+            notes.append("Node::%s: unrecognised body %s" % (key, (got or "missing")[:300]))
+    ct = [c for c in fns.get("Writer", [])]
+    ok_inits = ok_body = False
+    if len(ct) == 1:
+        ok_body = sxast.body_of(ct[0]) == ("block", [])
+        ok_inits = sxast.ctor_inits(ct[0])[:2] == [("xml", ("ref", "xml", "ParmVarDecl")), ("bin", ("ref", "bin", "ParmVarDecl"))]
+    out["w_ctor"] = (ok_inits, ok_body, bool(hc_init))
+    if not (ok_inits and ok_body and hc_init):
+        notes.append("Writer constructor / State::hasContent initialiser not as expected: %r" % (out["w_ctor"],))
+    return out
 
 
 def coq_text(progs, notes):
@@ -538,6 +726,13 @@ def coq_text(progs, notes):
         else:
             L.append("Definition f_%s : stmt :=\n  %s." % (nm, p or 'SUnk "missing"'))
         L.append("")
+    for w in WRITER:
+        L.append("Definition f_w_%s : list wstmt :=\n  [%s].\n" % (w, "; ".join(progs.get("w_" + w) or ['WUnkS "missing"'])))
+    for key in ("hasProp", "getProp2", "getProp1"):
+        L.append("Definition f_n_%s : nodefn := %s." % (key, progs.get("n_" + key) or "NUnkN"))
+    a, b2, c = progs.get("w_ctor") or (False, False, False)
+    bb = lambda v: "true" if v else "false"  # noqa: E731
+    L.append("Definition f_w_ctor : wctor := MkWc %s %s %s.\n" % (bb(a), bb(b2), bb(c)))
     return "\n".join(L)
 
 
@@ -565,7 +760,8 @@ def main(argv):
     else:
         sys.stdout.write(txt)
     if js:
-        json.dump({"programs": {k: (v if isinstance(v, (str, dict)) or v is None else list(v)) for k, v in progs.items()},
+        json.dump({"inventory": progs.get("_inventory", []),
+                   "programs": {k: (v if isinstance(v, (str, dict)) or v is None else list(v)) for k, v in progs.items() if k != "_inventory"},
                    "notes": notes}, open(js, "w"), indent=1)
     return notes
 
